@@ -15,8 +15,12 @@ def b01(x):
 KEYS = [b"k", b"key:1", b"", b"a b", b"k\r\n+OK\r\n", b"\x00\xff", b"K"]
 def g_key(rng):
     return rng.choice(KEYS) if rng.random() < 0.8 else bytes(rng.randrange(256) for _ in range(rng.randint(1, 12)))
+BIG_SIZES = [4095, 4096, 4097, 5000, 8192, 12000, 16384, 65536, 70000]      # around the usual I/O buffer sizes
 def g_str(rng):
     r = rng.random()
+    if r < 0.02:
+        n = rng.choice(BIG_SIZES)
+        return bytes((i * 31 + n) % 253 for i in range(n))
     if r < 0.3: return rng.choice([b"v", b"", b"hello world", b"\r\n", b"$-1\r\n", b"\r\n:1\r\n", b"NX", b"10", b"-1"])
     return bytes(rng.randrange(256) for _ in range(rng.randint(0, 20)))
 INTS = [0, 1, -1, 2, 10, -10, 100, 2**31 - 1, 2**31, -2**31, 2**63 - 1, -2**63, 2**63 - 2, -2**63 + 1]
